@@ -1014,7 +1014,13 @@ static void SwitchTo_OLMS50(void) {
     ASSUMERecCnt = sizeof(ASSUMEs) / sizeof(*ASSUMEs);
 }
 
+static void InitCode_OLMS50(void) {
+    PRegAssume = 0;
+}
+
 void codeolms50_init(void) {
+    AddInitPassProc(InitCode_OLMS50);
+
     CPU5054 = AddCPU("MSM5054", SwitchTo_OLMS50);
     CPU5055 = AddCPU("MSM5055", SwitchTo_OLMS50);
     CPU5056 = AddCPU("MSM5056", SwitchTo_OLMS50);
